@@ -9,7 +9,11 @@ unsigned long nondet_ulong(void);
 char nondet_char(void);
 _Bool nondet_bool(void);
 void *nondet_ptr(void);
+#ifdef VERIF_NO_REACH
+#define REACH() ((void)0)
+#else
 #define REACH() __CPROVER_assert(0, "REACH")
+#endif
 #define SAME(p, q) __CPROVER_same_object((p), (q))
 #define OFF(p) ((long)__CPROVER_POINTER_OFFSET(p))
 #endif
